@@ -981,4 +981,43 @@ theorem removeFunctions_isEntry (x : IR) (blk : Block) (n : Option Nat) (nc : Bo
           exact Or.inl h1
       · exact Or.inl h1
 
+/-- the same for everything `remove_block` does before it unlinks the block: with
+`retarget_to_proxy` nothing is promoted at all -/
+theorem removeStages_isEntry (x : IR) (blk : Block) (t c : Bool) (px p n : Option Nat) (k g : Nat)
+    (h : (x.removeStages blk t c px p n).isEntry k g) :
+    x.isEntry k g ∨ (t = false ∧ k = n.getD 0 ∧ x.isCodeBlockId n = true ∧ x.isEntry blk.id g ∧
+      alookup blk.id x.fbb = some g ∧ x.sameFunction blk.id (n.getD 0) = true) := by
+  unfold IR.removeStages at h
+  unfold IR.isEntry at h
+  simp only [] at h
+  have htail : ∀ y : IR, (((y.removeOutEdges blk).removeAuxEntries blk).removeCfi blk.id (x.requiredCfi blk) p n
+      (x.isCodeBlockId p) (x.isCodeBlockId n)).aux.funcEntries = y.aux.funcEntries := by
+    intro y
+    show (y.removeOutEdges blk).aux.funcEntries = _
+    exact removeOutEdges_funcEntries _ _
+  rw [htail] at h
+  split at h
+  · rw [removeEntrypoints_funcEntries] at h
+    have h1 : ((x.removeSyms blk.id (removeTarget px n p)).removeInEdges blk px n (x.isCodeBlockId n) |>.removeFunctions blk
+        (if t then none else n) (if t then false else x.isCodeBlockId n)).isEntry k g := h
+    rcases removeFunctions_isEntry _ blk _ _ k g h1 with h2 | ⟨h2, h3, h4, h5, h6⟩
+    · left
+      unfold IR.isEntry at h2 ⊢
+      rw [removeInEdges_funcEntries] at h2
+      exact h2
+    · right
+      cases t with
+      | true => simp at h3
+      | false =>
+        simp only [Bool.false_eq_true, if_false] at h2 h3 h6
+        refine ⟨rfl, h2, h3, ?_, ?_, ?_⟩
+        · unfold IR.isEntry at h4 ⊢
+          rw [removeInEdges_funcEntries] at h4
+          exact h4
+        · rw [removeInEdges_fbb] at h5; exact h5
+        · unfold IR.sameFunction at h6 ⊢
+          rw [removeInEdges_fbb] at h6
+          exact h6
+  · exact Or.inl h
+
 end GtirbVerif.IR
